@@ -11,7 +11,7 @@ TRUSTED = ["the real-valued form height <= 1.4405*log2(n+2) is the integer state
 
 
 def random_hist(rng, nops, universe):
-    sc, bag, h = ["new 0 %d" % rng.randrange(3)], [], 0
+    sc, bag, h = ["new 0 %d" % rng.choice([0, 1, 2, 3, 4, 5])], [], 0
     for _ in range(nops):
         r = rng.random()
         if r < 0.55 or not bag:
